@@ -46,8 +46,8 @@ OpsOf(cls, s) ==
                                   c \in UNION {{Honest(k), [Honest(k) EXCEPT !.chain = "self", !.ck = RE(CertKeys)], [Honest(k) EXCEPT !.priv = FALSE]} : k \in Enrolled(s)}}
     [] cls = "ConnectOther" -> {[op |-> "Connect", kind |-> RE({"base", "fetch"}), k |-> RE(CertKeys), ck |-> RE(CertKeys), chain |-> "self",
                                  priv |-> TRUE, nsig |-> NONE, stt |-> NONE, skip |-> FALSE, nid |-> NONE, pref |-> NONE, cn |-> FALSE]}
-    [] cls = "Dial" -> {[op |-> "Dial", k |-> k, ex |-> RE({"none", "one", "many", "dups", "prefixlike"}),
-                         stt |-> RE({"none", "empty", "nested", "large"})] : k \in Enrolled(s)}
+    [] cls = "Dial" -> {[op |-> "Dial", k |-> k, ex |-> RE({"none", "one", "many", "dups", "prefixlike", "containsPref"}),
+                         stt |-> RE({"none", "empty", "nested", "large", "overriddenNil"})] : k \in Enrolled(s)}
     [] cls = "NewNode" -> {[op |-> "NewNode", k |-> k] : k \in {x \in CertKeys : s.cert[x] = "none"}}
     [] cls = "AuthorizePending" -> {[op |-> "AuthorizePending", k |-> k] : k \in {x \in CertKeys : s.cert[x] = "pending" /\ ~s.rec[x]}}
     [] cls = "DialPending" -> {[op |-> "Dial", k |-> k, ex |-> RE({"none", "one"}), stt |-> RE({"none", "nested"})] : k \in {x \in CertKeys : s.cert[x] = "pending"}}
